@@ -24,3 +24,69 @@ package runtime
 //@ ensures C05 len: result.len == j - i
 //@ ensures C05 window: (i < base.len ==> result.data == base.data + uintptr(i)) && (i == base.len ==> result.data == base.data)
 //@ modifies nothing
+
+// ---------------------------------------------------------------------------
+// z_slice.go
+
+//@ func panicmakeslicelen
+//@ props C03
+//@ panics_iff C03 always: true
+
+//@ func panicmakeslicecap
+//@ props C03
+//@ panics_iff C03 always: true
+
+//@ func MakeSlice
+//@ props C03 C05
+//@ inline panicmakeslicelen panicmakeslicecap
+//@ requires etSize >= 0
+//@ panics_iff C03 oversize: len < 0 || len > cap || mulovf(uintptr(etSize), uintptr(cap)) || uintptr(etSize)*uintptr(cap) > maxAlloc
+//@ ensures_panic C03 msg-len: (len < 0 || mulovf(uintptr(etSize), uintptr(len)) || uintptr(etSize)*uintptr(len) > maxAlloc) ==> panicmsg() == "makeslice: len out of range"
+//@ ensures_panic C03 msg-cap: !(len < 0 || mulovf(uintptr(etSize), uintptr(len)) || uintptr(etSize)*uintptr(len) > maxAlloc) ==> panicmsg() == "makeslice: cap out of range"
+//@ ensures C05 header: result.len == len && result.cap == cap
+//@ ensures C05 zeroed: forall a uintptr :: result.data <= a && a < result.data + uintptr(etSize)*uintptr(cap) ==> mem[a] == 0
+//@ modifies nothing
+
+//@ func nextslicecap
+//@ props C05
+//@ requires 0 <= oldCap && oldCap < newLen && newLen < 1<<61
+//@ ensures C05 ge: result >= newLen && result > 0
+//@ ensures C05 le: result <= 2*newLen + 2*oldCap
+//@ loop 1 invariant grow: 256 <= oldCap && oldCap <= newcap && newcap < newLen
+//@ loop 1 decreases newLen - newcap
+//@ modifies nothing
+
+//@ func GrowSlice
+//@ props C05
+//@ arith int
+//@ requires etSize > 0 && etSize < 1<<16 && num >= 0 && num < 1<<28
+//@ requires 0 <= src.len && src.len <= src.cap && src.cap < 1<<28
+//@ requires valid(src.data, src.cap*etSize)
+//@ ensures C05 len: result.len == src.len + num
+//@ ensures C05 cap: result.len <= result.cap && result.cap < 1<<31
+//@ ensures C05 share: (result.data == src.data && result.cap == src.cap) <==> (src.len + num <= src.cap)
+//@ ensures C05 prefix: forall a uintptr :: a < uintptr(src.len*etSize) ==> mem[result.data + a] == old(mem[src.data + a])
+//@ ensures C05 region: valid(result.data, result.cap*etSize)
+//@ ensures C05 fresh: src.len + num > src.cap ==> fresh(result.data, result.cap*etSize)
+//@ modifies nothing
+
+//@ func SliceCopy
+//@ props C05
+//@ arith int
+//@ requires etSize >= 0 && etSize < 1<<16 && num >= 0 && num <= 1<<30 && 0 <= dst.len && dst.len <= 1<<30
+//@ requires valid(dst.data, dst.len*etSize) && valid(data, num*etSize)
+//@ ensures C05 count: result == min(dst.len, num)
+//@ ensures C05 moved: forall a uintptr :: a < uintptr(result*etSize) ==> mem[dst.data + a] == old(mem[data + a])
+//@ modifies bytes(dst.data, min(dst.len, num)*etSize)
+
+//@ func SliceAppend
+//@ props C05
+//@ arith int
+//@ requires etSize >= 0 && etSize < 1<<16 && num >= 0 && num < 1<<28
+//@ requires 0 <= src.len && src.len <= src.cap && src.cap < 1<<28
+//@ requires valid(src.data, src.cap*etSize) && valid(data, num*etSize)
+//@ ensures C05 len: result.len == src.len + num && result.len <= result.cap
+//@ ensures C05 share: etSize > 0 ==> ((result.data == src.data && result.cap == src.cap) <==> (src.len + num <= src.cap))
+//@ ensures C05 prefix: forall a uintptr :: a < uintptr(src.len*etSize) ==> mem[result.data + a] == old(mem[src.data + a])
+//@ ensures C05 appended: forall a uintptr :: a < uintptr(num*etSize) ==> mem[result.data + uintptr(src.len*etSize) + a] == old(mem[data + a])
+//@ modifies bytes(src.data + uintptr(src.len*etSize), num*etSize)
